@@ -62,7 +62,11 @@ class Verdict:
     """Collects violations; known findings are matched by exact key and printed as KNOWN-FINDING."""
     def __init__(self, pid, ev):
         self.pid, self.ev = pid, ev
-        self.known = {f["key"]: f for f in load_findings(pid)}
+        # a finding is identified by its "key"; a finding that covers several exactly named universe elements lists them under "keys"
+        self.known = {}
+        for f in load_findings(pid):
+            for k in [f["key"]] + list(f.get("keys", [])):
+                self.known[k] = f
         self.hit_known = {}
         self.viol = []
 
@@ -80,8 +84,13 @@ class Verdict:
         return True
 
     def finish(self):
+        printed = set()
         for k, w in self.hit_known.items():
-            print("KNOWN-FINDING: property=%s %s" % (self.pid, self.known[k].get("what", w)))
+            f = self.known[k]
+            if f["key"] in printed:
+                continue
+            printed.add(f["key"])
+            print("KNOWN-FINDING: property=%s %s" % (self.pid, f.get("what", w)))
         self.ev.cov["known_findings_hit"] = sorted(self.hit_known)
         self.ev.violations = len(self.viol)
         self.ev.write()
